@@ -268,10 +268,10 @@ impl Segments {
         }
     }
 
-    // // Named like in rfc9293 SND.NEXT
-    // pub fn next_seq_nr(&self) -> SeqNr {
-    //     self.snd_una + self.segments.len() as u16
-    // }
+    /// The sequence number following the last queued segment. Named like in rfc9293 SND.NEXT
+    pub fn next_seq_nr(&self) -> SeqNr {
+        self.snd_una + self.segments.len() as u16
+    }
 
     /// The first sequence number that is not acknowledged yet (the next one to enqueue if empty).
     pub fn snd_una(&self) -> SeqNr {
